@@ -127,7 +127,10 @@ class TimedList(Generic[Item]):
             raise ValueError("Column Names do not match.")
         for col_name, (col_type, default) in cls._item_class()._props.items():
             if col_name not in df:
-                df[col_name] = default
+                if isinstance(default, list):
+                    df[col_name] = [deepcopy(default) for _ in range(len(df))]
+                else:
+                    df[col_name] = default
                 df[col_name] = df[col_name].astype(col_type)
 
         tl.df = df
@@ -218,7 +221,12 @@ class TimedList(Generic[Item]):
             ``TimedList`` with ``rows`` default
         """
         df = pd.DataFrame(cls._default())
-        return cls(df.loc[df.index.repeat(rows)].reset_index(drop=True))
+        df = df.loc[df.index.repeat(rows)].reset_index(drop=True)
+        for col_name, (_, default) in cls._item_class()._props.items():
+            if isinstance(default, list):
+                # every row gets its own list, not a shared reference
+                df[col_name] = [deepcopy(default) for _ in range(rows)]
+        return cls(df)
 
     def append(
         self, val: Series | TimedList | pd.Series | pd.DataFrame, sort: bool = False
